@@ -34,7 +34,9 @@ RULE = (
     "CorrelationRemover, AdversarialFairnessClassifier, AdversarialFairnessRegressor}, a configuration, a pool of 2-3 data "
     "sets (different rows/groups/width) and a history of 2-8 operations from {fit(D_k), predict-type(X', seed), "
     "predict(X', None), restart via pickle, clone, ambient RNG perturbation} under a planned clock; the first seeds "
-    "enumerate every history of length <=3 (thorough: <=4) over {fit(D1), fit(D2), predict, restart, clone} per class. After every operation the estimator is "
+    "enumerate every history of length <=2 (thorough: <=4) over {fit(D1), fit(D2), predict, restart, clone} per class, the rest "
+    "are random histories over all operation kinds incl. twin (another instance), scribble (caller overwrites its arrays) and "
+    "in-place edits of the reused query buffer. After every operation the estimator is "
     "compared with a fresh identically configured estimator fitted once on the last data set. Non-trivial = >=1 "
     "operation executed and >=1 simulator decision consumed (clock read, restart, ambient perturbation); distinct = "
     "distinct (class, fitted?, last data set, origin in {ctor, clone, restart}, #fits<=2) x operation-kind transitions "
@@ -107,7 +109,9 @@ def _history(rng, cls, index, ndata, tier="quick"):
     if cls in ("ADVC", "ADVR"):
         kinds.remove("restart")
     # stratified: every history of length <= 3 (per class) first
-    lengths = (1, 2, 3, 4) if tier == "thorough" else (1, 2, 3)
+    # complete enumeration first: quick = all histories of length <= 2 (30 per class), thorough = length <= 4 (780 per
+    # class); every later index is a random history of 2-8 operations over all operation kinds
+    lengths = (1, 2, 3, 4) if tier == "thorough" else (1, 2)
     small = [h for L in lengths for h in itertools.product(["fit0", "fit1", "predict", "restart", "clone"], repeat=L)]
     j = index // len(CLASSES)
     if j < len(small):
@@ -117,6 +121,11 @@ def _history(rng, cls, index, ndata, tier="quick"):
     h = [rng.choice(kinds) for _ in range(L)]
     if not any(k.startswith("fit") for k in h):
         h.insert(0, rng.choice(["fit0", "fit1"]))
+    r = rng.random()
+    if r < 0.3:
+        # another instance acts between a fit and a later prediction of the estimator under test
+        i = next(j for j, k in enumerate(h) if k.startswith("fit"))
+        h[i + 1:i + 1] = rng.choice([["twin", "predict"], ["predict", "twin", "predict"], ["twin", "scribble", "predict"]])
     return h
 
 
@@ -130,7 +139,11 @@ def gen_plan(seed, index, tier):
         cons = rng.choice(["demographic_parity", "equalized_odds", "true_positive_rate_parity", "false_negative_rate_parity"])
         plan["cfg"] = {"base": base, "constraints": cons,
                        "objective": rng.choice(["accuracy_score", "balanced_accuracy_score"]),
-                       "grid_size": rng.choice([5, 10, 40]), "flip": rng.random() < 0.3, "prefit": rng.random() < 0.3}
+                       "grid_size": rng.choice([5, 10, 40]), "flip": rng.random() < 0.3, "prefit": rng.random() < 0.3,
+                       "pm": rng.choice(["auto", "auto", "auto", "predict_proba"]),
+                       "stub_method": rng.choice(["predict_proba", "decision_function", "both", "both"])}
+        if plan["cfg"]["pm"] == "predict_proba":
+            plan["cfg"]["stub_method"] = "predict_proba"
         plan["data"] = [_cls_dataset(rng, True) for _ in range(ndata)]
         if rng.random() < 0.35:
             plan["data"][1] = _derived_dataset(rng, plan["data"][0], 0)
@@ -181,12 +194,12 @@ def gen_plan(seed, index, tier):
 # factories
 
 
-def _base_learner(kind, for_to=False):
+def _base_learner(kind, for_to=False, stub_method="predict_proba"):
     if kind == "lr":
         from sklearn.linear_model import LogisticRegression
 
         return LogisticRegression(max_iter=200)
-    return seams.ScoreStub(col=0, method="predict_proba") if for_to else seams.ExactClassifier(col=0, log_payload=False)
+    return seams.ScoreStub(col=0, method=stub_method) if for_to else seams.ExactClassifier(col=0, log_payload=False)
 
 
 def _xy(plan, k):
@@ -204,18 +217,23 @@ def _xy(plan, k):
     return cache[xkey], y, g
 
 
-def factory(plan):
+def factory(plan, twin=False):
+    """The estimator of the plan.  twin=True: the estimator 'another caller' uses in the same process - same
+    class, and for ThresholdOptimizer a base learner of the same class that offers the *other* soft-prediction method."""
     cls, cfg = plan["cls"], plan["cfg"]
     if cls == "TO":
         from fairlearn.postprocessing import ThresholdOptimizer
 
-        base = _base_learner(cfg["base"], for_to=True)
+        sm = cfg.get("stub_method", "predict_proba")
+        if twin:
+            sm = "predict_proba" if sm == "decision_function" else "decision_function"
+        base = _base_learner(cfg["base"], for_to=True, stub_method=sm)
         if cfg["prefit"]:
             X, y, g = _xy(plan, 0)
             base.fit(X, y)
         return ThresholdOptimizer(estimator=base, constraints=cfg["constraints"], objective=cfg["objective"],
                                   grid_size=cfg["grid_size"], flip=cfg["flip"], prefit=cfg["prefit"],
-                                  predict_method="predict_proba")
+                                  predict_method=cfg.get("pm", "predict_proba"))
     if cls == "EG":
         from fairlearn.reductions import ExponentiatedGradient
 
@@ -329,6 +347,8 @@ def shared_probe(plan, k, ctx):
 
 def reverse_probe_in_place(plan, k, ctx):
     Xp, kw = shared_probe(plan, k, ctx)
+    orient = ctx.scratch.setdefault("orient", {})
+    orient[k] = 1 - orient.get(k, 0)
     if isinstance(Xp, pd.DataFrame):
         Xp.iloc[:, :] = Xp.iloc[::-1].to_numpy()
     else:
@@ -452,6 +472,36 @@ def execute(plan, ctx):
             refs[key] = (ok, fresh, ret, site)
         return refs[key]
 
+    exp_store = {}
+
+    def oriented_probe(k, orient):
+        Xp, kw = probe_set(plan, k)
+        if orient:
+            Xp = Xp.iloc[::-1].reset_index(drop=True) if isinstance(Xp, pd.DataFrame) else Xp[::-1].copy()
+            kw = {a: v[::-1].copy() for a, v in kw.items()}
+        return Xp, kw
+
+    def expected(k, via_clone, seed, orient=None):
+        """What a fresh identically configured estimator fitted once on data set k answers for (probe content,
+        seed).  Computed as early as possible (before other instances ran in this process) and stored, so
+        that ambient state polluted later cannot make the reference wrong in the same way as the estimator."""
+        if orient is None:
+            orient = ctx.scratch.setdefault("orient", {}).get(k, 0)
+        key = (k, via_clone, seed, orient)
+        if key not in exp_store:
+            okr, fresh_, _r, _s = reference(k, via_clone)
+            if not okr:
+                return None
+            okq, obs_, _ = ctx.call(observe, plan, fresh_, k, seed, oriented_probe(k, orient))
+            exp_store[key] = obs_ if okq else None
+        return exp_store[key]
+
+    # pre-compute the expectations in the clean initial state of the run
+    for k0 in sorted({int(o[3:]) for o in plan["ops"] if o.startswith("fit") and int(o[3:]) < len(plan["data"])}):
+        for sd in plan["seeds"][:2]:
+            for orient0 in (0, 1):
+                expected(k0, False, sd, orient0)
+
     est = factory(plan)
     twin = None      # a second, independent estimator of the same class used by "another caller"
     shadows = []     # fitted estimators left behind by clone operations: (estimator, data set, answers then)
@@ -508,9 +558,9 @@ def execute(plan, ctx):
                     if not known:
                         return
                 okf, obs, site = ctx.call(observe, plan, est, k, plan["seeds"][0])
-                okq, ref_obs, _ = ctx.call(observe, plan, fresh, k, plan["seeds"][0])
-                if not okq:
-                    raise HarnessError(f"reference estimator cannot be observed: {ref_obs}")
+                ref_obs = expected(k, cloned, plan["seeds"][0], 0)
+                if ref_obs is None:
+                    raise HarnessError("reference estimator cannot be observed")
                 if not okf:
                     ctx.fail("C19.observe_raised", f"{cls}: predict-type call after fit raised {type(obs).__name__}: {obs} at {site}",
                              dict(sigbase, exc=type(obs).__name__, site=site))
@@ -571,9 +621,9 @@ def execute(plan, ctx):
                              f"({first_diff(d0, d1)})", sigbase)
                     return
                 # identity-insensitive expectation: the fresh reference estimator on a *copy* of the buffer
-                okr2, fresh2, _r, _s = reference(fitted_on, cloned)
-                if okr2 and not ctx.scratch.get("resynced_or_known"):
-                    okc, dref, _ = ctx.call(observe, plan, fresh2, fitted_on, plan["seeds"][1], copy_probe(probe))
+                dref = None if ctx.scratch.get("resynced_or_known") else expected(fitted_on, cloned, plan["seeds"][1])
+                if dref is not None:
+                    okc = True
                     if okc and not same(d1, dref):
                         known = ctx.fail("C19.predict_differs", f"{cls}: after history {hist} a predict-type call on the caller's (reused) query "
                                          f"buffer differs from a fresh identically configured estimator's answer on a copy of it "
@@ -643,7 +693,7 @@ def execute(plan, ctx):
             # interleaving with another caller: an independent estimator of the same class is fitted on
             # another data set and queried; nothing of it may leak into the estimator under test
             if twin is None:
-                twin = factory(plan)
+                twin = factory(plan, twin=True)
             kt = (opi + 1) % len(plan["data"])
             with ctx.clock_installed():
                 okt, _r, _s = ctx.call(do_fit, plan, twin, kt)
